@@ -27,7 +27,10 @@ TargetDefs == [ T_1 |-> Str,
              T_8 |-> Mk([type |-> "string", enum |-> <<"a", "b">>], <<>>),
              T_9 |-> Mk([type |-> "array"], [items |-> ListOf(<<Int, Str>>)]),
              T_10 |-> Mk([type |-> "object", discriminator |-> "kind"], [properties |-> Mk(<<>>, [kind |-> Str])]),
-             T_11 |-> Mk([type |-> "array"], [items |-> Mk([type |-> "array"], [items |-> RefD("T_11")])]) ]
+             T_11 |-> Mk([type |-> "array"], [items |-> Mk([type |-> "array"], [items |-> RefD("T_11")])]),
+             \* a container OF a self-containing container (itself not on the cycle), as array and as map
+             T_12 |-> Mk([type |-> "array"], [items |-> RefD("T_3")]),
+             T_13 |-> Mk([type |-> "object"], [additionalProperties |-> RefD("T_5")]) ]
 
 Leaves == { <<"leaf", k>> : k \in {"string", "integer", "date", "int32", "enum", "empty", "emptyobject", "object", "discriminated", "untypedprops", "barearray", "binary", "untypedformat"} }
           \cup { <<"ref", t>> : t \in DOMAIN TargetDefs }
